@@ -7,8 +7,8 @@ import gen_C10
 from props import C10_pfcases as PF
 
 ID = 'C10'
-GEN = [('Gen/C10_Units.v', gen_C10.generate)]
-EQUIV_FILES = []
+GEN = [('Gen/C10_Units.v', gen_C10.generate), ('Gen/C10_Code.v', gen_C10.generate_code)]
+EQUIV_FILES = ['Proofs/C10_Equiv.v']
 EXTRACT = 'Extract/C10_x.v'
 
 # ------------------------------------------------------------------ the specification the oracle reads
